@@ -175,6 +175,12 @@ def gen_tree(r, bs=4096, nfiles=8, ndirs=3, hostile=False, specials=True, xattrs
         for e in ents:
             if e.type != LINK and e.explicit and r.randrange(3) == 0:
                 for k in r.sample(keys, r.randrange(1, 4)):
+                    # the kernel refuses user.* on anything but regular files and directories; keep trees
+                    # materialisable (pack-dir input, unpack with --set-xattr) on the host file system
+                    if k.startswith(b"user.") and e.type not in (FILE, DIR):
+                        continue
+                    if k.startswith(b"security.") and xattrs == "safe":
+                        continue
                     e.xattrs[k] = r.choice(vals)
     return ents
 
